@@ -40,10 +40,10 @@ type piece struct {
 	from, to int
 }
 
-func lit(s string) piece           { return piece{lit: s, gen: -1} }
-func sub(g, from, to int) piece    { return piece{gen: g, from: from, to: to} }
-func all(g int, gs []gen) piece    { return piece{gen: g, from: 0, to: len(gs[g].text)} }
-func litPieces(s string) []piece   { return []piece{lit(s)} }
+func lit(s string) piece         { return piece{lit: s, gen: -1} }
+func sub(g, from, to int) piece  { return piece{gen: g, from: from, to: to} }
+func all(g int, gs []gen) piece  { return piece{gen: g, from: 0, to: len(gs[g].text)} }
+func litPieces(s string) []piece { return []piece{lit(s)} }
 func around(pos int, n int, repl string) []piece {
 	// genuine text 0 with the character at pos replaced by repl
 	return []piece{sub(0, 0, pos), lit(repl), sub(0, pos+1, n)}
@@ -316,6 +316,20 @@ func (w *world) observeCookie(kind int, label string, gs []gen, pk int, lines []
 	return xcase{Case: c.Case{Coq: coq, JSON: js}, needs: names}
 }
 
+// probeOf states an encoding as an edit of the first genuine text when it is one (keeps the case small)
+func probeOf(gs []gen, ps []piece) probe {
+	n := len(gs[0].text)
+	switch {
+	case len(ps) == 3 && ps[0].gen == 0 && ps[0].from == 0 && ps[1].gen < 0 && ps[2].gen == 0 && ps[2].to == n && ps[2].from >= ps[0].to:
+		return splice(ps[0].to, ps[2].from-ps[0].to, ps[1].lit)
+	case len(ps) == 2 && ps[0].gen == 0 && ps[0].from == 0 && ps[0].to == n && ps[1].gen < 0:
+		return splice(n, 0, ps[1].lit)
+	case len(ps) == 2 && ps[1].gen == 0 && ps[1].from == 0 && ps[1].to == n && ps[0].gen < 0:
+		return splice(0, 0, ps[0].lit)
+	}
+	return whole(renderPieces(gs, ps))
+}
+
 // encodingCases: every encoding to Unmarshal (CSeal) and as the session cookie value (CCookie)
 func (w *world) encodingCases(r *c.Rng, b *base, exhaustive bool, emit func(xcase)) {
 	if b.v.sess == nil {
@@ -323,14 +337,13 @@ func (w *world) encodingCases(r *c.Rng, b *base, exhaustive bool, emit func(xcas
 		// Unmarshal half still runs for state parameters
 		gs := []gen{b.g0}
 		for _, e := range encodingsOf(r, gs, exhaustive) {
-			emit(w.observe(kEncoding, gs, 1, whole(renderPieces(gs, e.pieces))))
+			emit(w.observe(kEncoding, gs, 1, probeOf(gs, e.pieces)))
 		}
 		return
 	}
 	gs := []gen{b.g0}
 	for _, e := range encodingsOf(r, gs, exhaustive) {
-		s := renderPieces(gs, e.pieces)
-		emit(w.observe(kEncoding, gs, 1, whole(s)))
+		emit(w.observe(kEncoding, gs, 1, probeOf(gs, e.pieces)))
 		line := append([]piece{lit(cookieName + "=")}, e.pieces...)
 		emit(w.observeCookie(kCookieEnc, e.label, gs, 1, [][]piece{line}))
 		if exhaustive || r.Chance(0.15) { // the encoding inside quotes as well
